@@ -95,6 +95,17 @@ def view_of(case, H):
         import networkx as nx
         assert not has_catalyst(case)
         return nx.Graph(hypergraph_to_bipartite(H, integer_ids=bool(case.get("perm_seed", 0) % 2)))
+    if v == "bip_bare":
+        # a minimally annotated graph: species nodes WITHOUT a label (the label falls back to the node id, which is the species
+        # name here), no 'kind' attribute (classification by the 'bipartite' flag), no 'stoich' on the arcs (read as 1) — only for
+        # networks whose coefficients are all 1
+        assert all(c == 1 for _, _, l, r in case["rxns"] for _, c in l + r)
+        G = hypergraph_to_bipartite(H, species_prefix=None, include_stoich=False)
+        for u, d in G.nodes(data=True):
+            if d.get("kind") == "species":
+                d.pop("label", None)
+            d.pop("kind", None)
+        return G
     if v == "bip_shuf":
         # a directly built bipartite graph whose SPECIES nodes were inserted in an order unrelated to their labels (reaction
         # nodes interleaved, in edge-id order: the column order among equal rule labels is the node order); integer or string ids
@@ -366,8 +377,14 @@ def node_ids(case):
         if isinstance(u, int) and not isinstance(u, bool):
             return 2 * u
         return 2 * intern.setdefault(u, len(intern)) + 1
-    sp = [(d["label"], num(u)) for u, d in Gv.nodes(data=True) if d.get("kind") == "species"]
-    rx = [num(u) for u, d in Gv.nodes(data=True) if d.get("kind") == "reaction"]
+    def is_sp(d):
+        return d.get("kind") == "species" or (d.get("kind") is None and d.get("bipartite") == 0)
+
+    def is_rx(d):
+        return d.get("kind") == "reaction" or (d.get("kind") is None and d.get("bipartite") == 1)
+    sp = [(str(d.get("label", u)), num(u)) for u, d in Gv.nodes(data=True) if is_sp(d)]
+    rx = [num(u) for u, d in Gv.nodes(data=True) if is_rx(d)]
+    assert len(sp) == len({k for _, k in sp}) and len(rx) == len(set(rx)) and sp and rx
     sp.sort(key=lambda t: t[0])          # aligned with species_set (label order), whatever the node insertion order
     return [k for _, k in sp], rx
 
@@ -1000,6 +1017,8 @@ def gen_cases(tier, rng):
         if not has_catalyst(t):
             cases.append(dict(t, view="bip_und", name=t["name"] + "/undirected"))
         cases.append(dict(t, view="bip_shuf", perm_seed=len(cases), name=t["name"] + "/shuffled-nodes"))
+        if all(c == 1 for _, _, l, r in t["rxns"] for _, c in l + r) and not any(s_.startswith("R:") for _, _, l, r in t["rxns"] for s_, _ in l + r):
+            cases.append(dict(t, view="bip_bare", name=t["name"] + "/bare-attributes"))
     nh = 0
     while nh < (60 if tier == "quick" else 600):
         c = edit_history(rng)
